@@ -4,6 +4,7 @@ import json
 import core
 import cli
 import gen
+import applylib as al
 
 LEVEL = "proof"
 EXPLANATION = ("Theorems (Props/C06.v) over the Gallina tokenizer / renderer / variant-table model of C18 (tables regenerated from the "
@@ -134,6 +135,48 @@ def contract_stream(R, g, fails, dis, stats):
         ln = [l for l in out.splitlines() if "MISMATCH" in l or "WITNESS" in l]
         fails.append({"why": "the real scanner contradicts the conclusion of a Proofs/ScanFileP.v theorem on an instance of its hypotheses",
                       "instances": ln[:5]})
+
+
+def typed_pairs_stream(R, g, fails, stats):
+    """EVERY way of typing the two terms (12 x 12 visible styles) against a file that holds the search term once in each visible style,
+    with and without --ignore-ambiguous: a multi-word occurrence in a visible style is not ambiguous, so each line is rewritten in its
+    own style whatever style the replacement was typed in (the resolver prefers the typed style of the replacement only among styles
+    the occurrence can have)."""
+    hp, _ = core.build_harness()
+    H = core.Harness([str(hp)])
+    a, b = g.term_pair()
+    lines = [(st, gen.render(a, st)) for st in gen.VISIBLE]
+    content = "".join(f"[{txt}]\n" for _, txt in lines).encode()
+    tree = [{"p": "all_styles.txt", "k": "f", "c": content, "m": 0o644}]
+    tj = cli.tree_json(tree)
+    styles = list(gen.VISIBLE)
+    n = 0
+    for t0 in gen.VISIBLE:
+        for t1 in gen.VISIBLE:
+            for ign in (False, True):
+                if ign and (gen.VISIBLE.index(t0) + gen.VISIBLE.index(t1)) % 4:
+                    continue
+                search, replace = gen.render(a, t0), gen.render(b, t1)
+                sr = H.ask({"op": "scan_tree", "tree": tj, "search": core.hx(search), "replace": core.hx(replace),
+                            "options": {"styles": styles, "rename_files": False, "rename_dirs": False, "ignore_ambiguous": ign}})
+                if not sr.get("ok"):
+                    fails.append({"why": "planner failed: " + str(sr)[:200], "search": search, "replace": replace})
+                    continue
+                ar = H.ask({"op": "apply_tree", "tree": tj, "plan": sr["plan"]})
+                got = al.harness_tree_dict(ar["tree"])["all_styles.txt"][2].decode("utf-8", "replace").split("\n") if "tree" in ar else []
+                n += 1
+                R.case(("typed_pair", t0, t1, ign), nontrivial=True)
+                for (st, txt), g_line in zip(lines, got):
+                    want = f"[{gen.render(b, st)}]"
+                    if g_line != want:
+                        fails.append({"why": f"the {st} occurrence '{txt}' became '{g_line}' instead of '{want}' with the terms typed as "
+                                             f"'{search}' -> '{replace}'" + (" and --ignore-ambiguous" if ign else ""),
+                                      "tree": tj, "search": search, "replace": replace, "ignore_ambiguous": ign, "styles": styles})
+                        break
+                if len(fails) > 3:
+                    break
+    stats["typed_pair_runs"] = n
+    H.close()
 
 
 def run(R):
@@ -272,6 +315,7 @@ def run(R):
                         if vis_left:
                             fails.append({"why": f"occurrences in an enabled style remain after the rename: {vis_left[:4]}", "search": search, "replace": replace, "opts": opts})
     contract_stream(R, g, fails, dis, stats)
+    typed_pairs_stream(R, g, fails, stats)
     R.coverage["input_distribution"] = stats
     R.disagreements = len(dis)
     if stats["lines"] == 0 or stats["expected_changed"] == 0:
